@@ -27,6 +27,7 @@ func C16(c *core.Ctx) {
 	c16Replicate(c)
 	c16Sharing(c)
 	c16CLI(c)
+	c16HeaderOptionLast(c)
 }
 
 // c16CLI: the command-line / bulk wrappers hand back the envelope that
@@ -307,6 +308,32 @@ func c16Envelope(c *core.Ctx) {
 				v, addr := baseOf(e)
 				return v == resVar && addr == byValue
 			}
+			// after it has been filled the copy is only handed back: nothing is called on it or stored
+			// into it (a copy with a new identifier is not a copy; Correct links to the copy's identifier)
+			touched := ""
+			if len(um) == 1 {
+				ast.Inspect(fd.Decl.Body, func(m ast.Node) bool {
+					id, ok := m.(*ast.Ident)
+					if !ok || info.Uses[id] != types.Object(resVar) || id.Pos() < um[0].End() || touched != "" {
+						return true
+					}
+					inReturn := false
+					ast.Inspect(fd.Decl.Body, func(k ast.Node) bool {
+						if r, ok := k.(*ast.ReturnStmt); ok && r.Pos() <= id.Pos() && id.End() <= r.End() && len(r.Results) == 2 {
+							if v, _ := baseOf(r.Results[0]); v == resVar {
+								inReturn = true
+							}
+						}
+						return true
+					})
+					if !inReturn {
+						touched = p.Rel(id.Pos())
+					}
+					return true
+				})
+			}
+			c.Ob("C16-R1", fd.Name()+"#copy-untouched", fd.Decl.Pos(), touched == "",
+				"the copy is modified after it has been filled from the source (at "+touched+"): it is no longer the same document — a correction made through the envelope refers to the copy's identifier, not the source's")
 			if fresh && len(um) == 1 && len(ma) == 1 && target(um[0].Args[1]) && core.VarOf(info, ma[0].Args[0]) == recv {
 				if dv := core.VarOf(info, um[0].Args[0]); dv != nil {
 					if d, has := ld.Before(dv, um[0].Pos()); has && ast.Unparen(d.RHS) == ast.Expr(ma[0]) {
@@ -756,4 +783,73 @@ func usageOf(body ast.Node, e ast.Expr) ast.Node {
 		return true
 	})
 	return res
+}
+
+// c16HeaderOptionLast — C16-R7: Envelope.Correct hands the source header to
+// the document's Correct as the *last* option. Options are applied in order and
+// an option may replace the whole option set (bill.WithOptions copies a complete
+// struct over it): a header option applied first is wiped, the source's stamps
+// are not carried over and a correctly stamped source is refused.
+func c16HeaderOptionLast(c *core.Ctx) {
+	p := c.P
+	c.Rule("C16-R7", "the source header is the last option handed to the document's Correct", 1)
+	fd := p.Func("", "Envelope", "Correct")
+	if fd == nil {
+		c.Ob("C16-R7", "UNRESOLVED:Envelope.Correct", token.NoPos, false, "method not found")
+		return
+	}
+	info := fd.Pkg.TypesInfo
+	isWithHead := func(e ast.Expr) bool {
+		call, ok := ast.Unparen(e).(*ast.CallExpr)
+		if !ok {
+			return false
+		}
+		fn := core.Callee(info, call)
+		return fn != nil && fn.Pkg() != nil && fn.Pkg().Path() == core.ModPath+"/head" && fn.Name() == "WithHead"
+	}
+	n := 0
+	ast.Inspect(fd.Decl.Body, func(m ast.Node) bool {
+		// any expression that builds an option list containing the header option
+		var elems []ast.Expr
+		var pos token.Pos
+		switch x := m.(type) {
+		case *ast.CallExpr:
+			if id, ok := ast.Unparen(x.Fun).(*ast.Ident); ok && id.Name == "append" {
+				if _, isB := info.Uses[id].(*types.Builtin); isB {
+					elems, pos = x.Args, x.Pos()
+					if x.Ellipsis.IsValid() && len(elems) > 0 {
+						// append(a, b...): b's elements come last
+						last := elems[len(elems)-1]
+						elems = append(append([]ast.Expr{}, elems[:len(elems)-1]...), &ast.Ellipsis{Elt: last})
+					}
+				}
+			}
+		case *ast.CompositeLit:
+			elems, pos = x.Elts, x.Pos()
+		}
+		has := -1
+		for i, e := range elems {
+			if isWithHead(e) {
+				has = i
+			}
+			// nested: append([]Option{WithHead(..)}, opts...)
+			if cl, ok := ast.Unparen(e).(*ast.CompositeLit); ok {
+				for _, ce := range cl.Elts {
+					if isWithHead(ce) && i < len(elems)-1 {
+						has = i
+					}
+				}
+			}
+		}
+		if has < 0 {
+			return true
+		}
+		n++
+		c.Ob("C16-R7", fmt.Sprintf("%s#header-option-last%d", fd.Name(), n), pos, has == len(elems)-1,
+			"the header option is not the last of the options handed on: an option applied after it that replaces the option set (bill.WithOptions) wipes the source header, its stamps are not copied and a properly stamped source is refused")
+		return false
+	})
+	if n == 0 {
+		c.Ob("C16-R7", fd.Name()+"#header-option-last", fd.Decl.Pos(), false, "NOT FOUND: Envelope.Correct does not add head.WithHead to the options")
+	}
 }
